@@ -1,13 +1,19 @@
 """Answer batteries of a map (light module: imported by the cross-process child without the matchers)."""
 
 
+def _pt(p):
+    """A broken tree may answer with a missing point: keep it as None so that the answers differ instead of the
+    harness failing."""
+    return None if p is None else (float(p[0]), float(p[1]))
+
+
 def _norm_nbrs(rows, drop_self=None):
     out = []
     for l, p in rows:
         if drop_self is not None and l == drop_self:
             continue
-        out.append((l, (float(p[0]), float(p[1]))))
-    return sorted(out)
+        out.append((l, _pt(p)))
+    return sorted(out, key=repr)
 
 
 def _norm_edges(rows, drop_selfloops=False):
@@ -15,8 +21,8 @@ def _norm_edges(rows, drop_selfloops=False):
     for a, pa, b, pb in rows:
         if drop_selfloops and a == b:
             continue
-        out.append((a, (float(pa[0]), float(pa[1])), b, (float(pb[0]), float(pb[1]))))
-    return sorted(out)
+        out.append((a, _pt(pa), b, _pt(pb)))
+    return sorted(out, key=repr)
 
 
 def battery(m, doc, labels, edges, geomcheck):
@@ -28,7 +34,7 @@ def battery(m, doc, labels, edges, geomcheck):
     out["metric_is_latlon"] = bool(d > 1000.0)
     out["crs"] = (m.crs_lonlat, m.crs_xy)
     out["size"] = m.size()
-    out["nodes"] = sorted((l, (float(p[0]), float(p[1]))) for l, p in m.all_nodes())
+    out["nodes"] = sorted(((l, _pt(p)) for l, p in m.all_nodes()), key=repr)
     out["edges"] = _norm_edges(m.all_edges())
     out["nbrs"] = [(l, _norm_nbrs(m.nodes_nbrto(l))) for l in labels]
     out["enbrs"] = [(e, _norm_edges(m.edges_nbrto(e))) for e in edges]
